@@ -429,7 +429,7 @@ def run_check_statuses(chk, tmp):
                        json.dumps({"case": cmp_.cases[i][2], **cmp_.show(i)}, default=str)[:1500])
 
 
-def run(chk):
+def _component_run(chk):
     proofs_ok = core.standard_proof_phase(chk, "C18", gen_needed=("SlurmGen", "RunCommandGen"))
     import logging
     logging.disable(logging.CRITICAL)
@@ -454,7 +454,28 @@ def run(chk):
                         "what real sbatch/squeue print is an assumption about SLURM (A-HPC)"]
 
 
-def replay(path):
+def _component_replay(path):
     obj = json.load(open(path))
     print(json.dumps(obj, indent=1)[:4000])
     return 0
+
+
+# ------------------------------------------------------------------------------------------------
+# system level (added by the coordinator): the real code in the virtual cluster, impl traces accepted
+# by System.step, Coq monitors and Python oracles (harness/syscheck.py)
+def run(chk):
+    _component_run(chk)
+    from harness import syscheck
+    syscheck.system_phase(chk, "C18", {'squeuefail': 5, 'plain': 2, 'suspend': 2}, n_quick=60, n_thorough=1200, also=())
+
+
+def replay(path):
+    import json as _json
+    try:
+        obj = _json.load(open(path))
+    except Exception:  # noqa
+        obj = {}
+    if isinstance(obj, dict) and "scenario" in obj and "schedule" in obj and "plan" in obj:
+        from harness import syscheck
+        return syscheck.replay_case(path)
+    return _component_replay(path)
